@@ -5,4 +5,4 @@ SPEC = make("C05", "Properties.C05", ['C05_eof_means_all', 'C05_eof_reachable', 
             COMMON_RULE + "For this property additionally: single-flow scripts (one established stream, then only reads / "
             "plain, vectored and empty writes / shutdowns and message-by-message deliveries, 40-120 labels) whose read and "
             "write results are also compared with the one-direction flow model Flow/Core.v on which the multi-step "
-            "theorems are proved.", "DESIGN.md §4 C05", flow=True)
+            "theorems are proved.", "DESIGN.md §5 C05", flow=True)
